@@ -27,6 +27,7 @@ for d in sorted(glob.glob('/verif/seeded/*/')):
         "origin": "written by an independent sub-agent that saw only the property text and a scratch worktree of /repo (nothing from /verif)",
         "confirmed_by_verifier": confirmed,
         "what_was_run": "tools/ingest_mutant.sh in a scratch worktree: demo on the unchanged tree (must pass), demo with the patch (must fail), the 81 existing tests + doctests with the patch (must pass), then the quick checks listed below with VERIF_REPO_PATH pointing at the patched copy",
+        "base_commit": (open(d + 'base_commit').read().strip() if os.path.exists(d + 'base_commit') else "HEAD of /repo when ingested (patch applies to the current tree)"),
         "quick_checks": checks,
         "detected_by": sorted(k for k, v in checks.items() if v["exit"] == 1),
         "missed_by": sorted(k for k, v in checks.items() if v["exit"] == 0),
